@@ -252,6 +252,88 @@ def tp_ob(role):
     return prep, run, fake_pull
 
 
+def hdr_ob(state, n, pad, kind):
+    """an arbitrary datagram (n symbolic bytes, optionally zero-padded to 1200) handed to an endpoint in `state`"""
+    role = state.split("_")[0]
+    name = "c05_fresh_%s" % role
+
+    def prep():
+        _quiet()
+        if "connected" in state or "closing" in state:
+            cm.prepare(name, cm.connected_template(role))
+
+    def run():
+        from aioquic.quic.configuration import QuicConfiguration
+        from aioquic.quic.connection import QuicConnection
+
+        _quiet()
+        sx.register_keys([1, 0x6B3343CF, 0])
+        sx.register_keys(range(0x40))
+        if "connected" in state or "closing" in state:
+            if sx.E.mode == "replay":
+                client, server = cm.make_pair()
+                conn = client if role == "client" else server
+            else:
+                conn = cm.get(name, role).conn
+            if "closing" in state:
+                conn.close(error_code=0)
+                conn.datagrams_to_send(now=0.9)
+        else:
+            cfg = QuicConfiguration(is_client=(role == "client"))
+            if role == "server":
+                import os
+
+                cfg.load_cert_chain(os.path.join(cm.REPO, "tests", "ssl_cert.pem"), os.path.join(cm.REPO, "tests", "ssl_key.pem"))
+                conn = QuicConnection(configuration=cfg, original_destination_connection_id=bytes(8))
+            else:
+                conn = QuicConnection(configuration=cfg)
+                if state == "client_firstflight":
+                    conn.connect(cm.ADDR_S, now=0.0)
+            if state == "server_after_bad_initial":
+                # a first Initial that does not authenticate
+                bad = bytes([0xC3]) + (1).to_bytes(4, "big") + bytes([8]) + bytes(8) + bytes([8]) + bytes(8) + b"\x00" + (0x4000 | 1174).to_bytes(2, "big") + bytes(1174)
+                cm.CryptoErrorChoice.fail_next = True
+                conn.receive_datagram(bad, cm.ADDR_C, now=0.5)
+                cm.CryptoErrorChoice.fail_next = False
+        if kind == "long":
+            # long header with connection-ID lengths from {0, 8, 20, 21} (every other length is the
+            # subject of C17.hdr.arbitrary; here the connection's reaction to the parsed packet matters)
+            dl = [0, 8, 20, 21][sx.Choice("dcid_len", 4)]
+            sl = [0, 8, 21][sx.Choice("scid_len", 3)]
+            m = 7 + dl + sl + 25  # header, token length(+1), length, packet number, 3 payload bytes, tag
+            d = sx.Bytes("d", m, m)
+            sx.assume(sx.And(d[0] >= 0x80, d[5] == dl, d[6 + dl] == sl))
+            if pad:
+                # an Initial-sized datagram: no token, a Length field that keeps the first packet short;
+                # the zero padding then parses as (invalid) further packets
+                pos = 7 + dl + sl
+                sx.assume(sx.And(sx.Or(d[1] != 0, d[2] != 0, d[3] != 0, d[4] != 0), d[pos] == 0, d[pos + 1] == 0x40, d[pos + 2] <= 24))
+                d = d + bytes(1200 - m)
+            elif sx.Bool("truncated"):
+                d = d[: m - 20]
+        else:
+            m = n
+            d = sx.Bytes("d", m, m)
+            sx.assume(d[0] < 0x80)
+            if sx.Bool("truncated"):
+                d = d[:12]
+        conn.receive_datagram(d, cm.ADDR_C if role == "server" else cm.ADDR_S, now=1.0)
+        after(conn, 1.05)
+
+    return prep, run
+
+
+def hdr_shims():
+    return cm.conn_shims(extra=[("CryptoPair", cm.FakeCryptoPair), ("tls", cm.TlsModuleProxy()), ("get_retry_integrity_tag", _fake_retry_tag), ("SMALLEST_MAX_DATAGRAM_SIZE", 1)])
+
+
+def _fake_retry_tag(packet_without_tag, original_destination_cid, version):
+    """AES-GCM over the pseudo-packet is ideal: the expected tag is 16 arbitrary bytes (so a received
+    tag may or may not match)"""
+    sx.E.fresh += 1
+    return sx.Bytes("retry_tag!%d" % sx.E.fresh, 16, 16)
+
+
 FRAME_TYPES = [0x00, 0x01, 0x02, 0x03, 0x04, 0x05, 0x06, 0x07, 0x08, 0x09, 0x0A, 0x0B, 0x0C, 0x0D, 0x0E, 0x0F, 0x10, 0x11, 0x12, 0x13, 0x14, 0x15, 0x16, 0x17, 0x18, 0x19, 0x1A, 0x1B, 0x1C, 0x1D, 0x1E, 0x30, 0x31, 0x21]
 
 
@@ -266,6 +348,14 @@ def obligations(tier):
               for rep in ([False, True] if ft in REPEAT and (T or ft not in HEAVY_TWICE) else [False]):
                 prep, run = frame_ob(role, template, ft, rep)
                 obs.append(Ob("C05.frame.%s.%s.0x%02x%s" % (role, template, ft, ".twice" if rep else ""), run, cm.conn_shims, enc + [Q + "_handle_*_frame (type 0x%02x)" % ft], bounds="1-RTT packet with one frame of type 0x%02x (twice for state-sharing types, or followed by PING): every varint field over [0, 2^62) (8-byte encoding), byte fields of length 0/2 (CID 0/1/8/20/21) with symbolic content and declared length honest / one too long / 2^62-1, truncated at 3 cut points; delivered to a %s %s endpoint; then transmit/timer/event calls until termination" % (ft, template, role), prepare=prep, budget_s=1500 if T else 250, max_decisions=1500, stubs=["CryptoPair -> transparent", "tls.Context -> nondeterministic stub"]))
+    nh = 30 if T else 29
+    for state in ("server_fresh", "server_after_bad_initial", "server_connected", "server_closing", "client_firstflight", "client_connected", "client_closing"):
+        for kind in ("long", "short"):
+            heavy = (kind == "long" and state in ("server_connected", "client_connected", "client_firstflight", "server_fresh", "server_after_bad_initial")) or (kind == "short" and state in ("server_connected", "client_connected"))
+            if heavy and not T:
+                continue
+            prep, run = hdr_ob(state, nh, False, kind)
+            obs.append(Ob("C05.hdr.%s.%s" % (state, kind), run, hdr_shims, enc, bounds="every %s-header datagram of %s handed to a %s endpoint (long headers: CID lengths in {0,8,20,21}; the server's 1200-byte Initial size threshold is scaled down to the datagram size used); then transmit/timer/event calls" % (kind, ("header + token/length fields + 3 payload bytes + 16 tag bytes, all arbitrary, or truncated" if kind == "long" else "%d arbitrary bytes, or truncated to 12" % nh), state.replace("_", " ")), prepare=prep, budget_s=2400 if T else 250, max_decisions=1500, stubs=["CryptoPair -> transparent", "tls.Context -> nondeterministic stub", "get_retry_integrity_tag -> arbitrary tag", "SMALLEST_MAX_DATAGRAM_SIZE -> 1 (size threshold abstraction)"]))
     for role in ("client", "server"):
         prep, run, fake = tp_ob(role)
         obs.append(Ob("C05.tp.%s" % role, run, (lambda fake=fake: cm.conn_shims(extra=[("pull_quic_transport_parameters", fake)])), [Q + "_alpn_handler", Q + "_parse_transport_parameters"], bounds="every transport-parameter set (each integer parameter absent or any value in [0,2^62), each CID parameter absent / arbitrary / the expected value, version_information with <= 2 versions) or a decoding failure", prepare=prep, budget_s=900 if T else 250, max_decisions=900, stubs=["pull_quic_transport_parameters -> any parameter set or ValueError (decided separately by C17.tp.*)"]))
